@@ -554,11 +554,11 @@ def parse_model(s):
     return out
 
 
-def compare_model(ctx, truth, case, obs, m):
+def compare_model(ctx, truth, case, obs, m, what='', check_widx=True):
     """model answer vs real load, observable behaviour only"""
     opts = case['opts']
     if 'err' in m:
-        ctx.disagree('model faults, real load succeeds', case, m, 'ok')
+        ctx.disagree(what + 'model faults, real load succeeds', case, m, 'ok')
         return False
     ab, cols = resolve_subsamples(opts)
     w = 10 if opts['cleaned'] else 5
@@ -575,23 +575,23 @@ def compare_model(ctx, truth, case, obs, m):
         real_rows.append([int(v) for v in r])
     good = True
     if mrows != real_rows:
-        ctx.disagree('kept rows', case, mrows, real_rows)
+        ctx.disagree(what + 'kept rows', case, mrows, real_rows)
         good = False
     for X in 'AB':
         mi = m[X]
         ri = (obs['npstart' + X], obs['npout' + X]) if X in ab else None
         if (mi is None) != (ri is None) or (mi is not None and (list(mi[0]) != ri[0] or list(mi[1]) != ri[1])):
-            ctx.disagree('index columns of subsample ' + X, case, mi, ri)
+            ctx.disagree(what + 'index columns of subsample ' + X, case, mi, ri)
             good = False
     if ab:
         if len(m['sub']) != obs['nsub']:
-            ctx.disagree('subsample table length', case, len(m['sub']), obs['nsub'])
+            ctx.disagree(what + 'subsample table length', case, len(m['sub']), obs['nsub'])
             return False
         wfd = truth.well_formed(case)
         if None in m['sub'] and wfd:
             ctx.disagree('model leaves table cells unwritten', case, m['sub'], 'n/a')
             return False
-        if wfd and m['widx'] != list(range(obs['nsub'])):
+        if check_widx and wfd and m['widx'] != list(range(obs['nsub'])):
             ctx.disagree('model write indices are not 0..N-1 in order', case, m['widx'], obs['nsub'])
             good = False
         # cells the model leaves unwritten (ill-formed input only) hold np.empty garbage in the real table
@@ -602,7 +602,7 @@ def compare_model(ctx, truth, case, obs, m):
             got = obs['sub'][col][written]
             if got.shape != exp.shape or not np.array_equal(got, exp):
                 bad = [int(k) for k in range(min(len(got), len(exp))) if not np.array_equal(got[k], exp[k])][:5]
-                ctx.disagree('subsample table column %s differs word for word (first cells %s)' % (col, bad),
+                ctx.disagree(what + 'subsample table column %s differs word for word (first cells %s)' % (col, bad),
                              case, exp.tolist()[:20], got.tolist()[:20])
                 good = False
     return good
